@@ -1,43 +1,209 @@
-//! probe (temporary)
-use std::collections::HashMap;
-use midnight_zk_stdlib::{MidnightCircuit, Relation};
-use midnight_zkir::{IrValue, ZkirRelation};
-type F = midnight_curves::Fq;
+//! Correspondence harness of property C16: decoding and verifying untrusted bytes is total.
+//!
+//! Every decoder call runs the REAL code of /repo under `mzkh::catch` and under a counting global
+//! allocator. A panic, or a peak allocation above `ALLOC_C * len + c0`, is an oracle failure
+//! (the property statement fails on that input). The verdict class / decoded structure of every
+//! case is also printed for the Lean model to reproduce.
+mod alloc;
+mod mutate;
+mod objects;
+mod sweeps;
+
+use std::collections::{BTreeMap, HashSet};
+use std::io;
+
+use midnight_curves::{G1Affine, G1Projective, G2Affine, G2Projective};
+use midnight_proofs::utils::{helpers::ProcessedSerdeObject, SerdeFormat};
+use midnight_zk_stdlib::ZkStdLibArch;
+use mzkh::Ctx;
+use num_bigint::BigUint;
+use serde_json::json;
+
+pub type F = midnight_curves::Fq;
+
+pub const FORMATS: [(SerdeFormat, &str); 2] = [(SerdeFormat::Processed, "p"), (SerdeFormat::RawBytes, "r")];
+
+pub fn hex(b: &[u8]) -> String {
+    if b.is_empty() {
+        return "-".into();
+    }
+    const D: &[u8; 16] = b"0123456789abcdef";
+    let mut s = String::with_capacity(b.len() * 2);
+    for x in b {
+        s.push(D[(x >> 4) as usize] as char);
+        s.push(D[(x & 15) as usize] as char);
+    }
+    s
+}
+
+pub fn be_hex(b: &[u8]) -> String {
+    format!("0x{}", BigUint::from_bytes_be(b).to_str_radix(16))
+}
+
+/// Error class of an `io::Error` produced by the decoders (the classes of `Model/C16/Bytes.lean`).
+pub fn io_class(e: &io::Error) -> String {
+    let msg = e.to_string();
+    if e.kind() == io::ErrorKind::UnexpectedEof || msg.contains("UnexpectedEof") || msg.contains("UnexpectedEnd") {
+        return "eof".into();
+    }
+    for (pat, cls) in [
+        ("Unsupported ZKStd version", "arch-version"),
+        ("InvalidBooleanValue", "arch-bool"),
+        ("Unsupported number of pow2range columns", "arch-pow2"),
+        ("unexpected version byte", "vk-version"),
+        ("exceeds maxium", "k-range"),
+        ("is too large for a circuit of degree", "k-ext"),
+        ("unexpected number of fixed commitments", "nfixed"),
+        ("Invalid point", "point"),
+        ("invalid point", "point"),
+        ("Invalid data.", "scalar"),
+        ("scalar encoding", "scalar"),
+    ] {
+        if msg.contains(pat) {
+            return cls.into();
+        }
+    }
+    format!("other:{:?}:{}", e.kind(), msg.replace(' ', "_"))
+}
+
+pub fn g1_render(p: &G1Affine) -> String {
+    use group::prime::PrimeCurveAffine;
+    if bool::from(p.is_identity()) {
+        "inf".into()
+    } else {
+        format!("{} {}", be_hex(&p.x().to_bytes_be()), be_hex(&p.y().to_bytes_be()))
+    }
+}
+
+pub fn g2_render(p: &G2Affine) -> String {
+    use group::prime::PrimeCurveAffine;
+    if bool::from(p.is_identity()) {
+        "inf".into()
+    } else {
+        let (x, y) = (p.x(), p.y());
+        format!(
+            "{} {} {} {}",
+            be_hex(&x.c0().to_bytes_be()),
+            be_hex(&x.c1().to_bytes_be()),
+            be_hex(&y.c0().to_bytes_be()),
+            be_hex(&y.c1().to_bytes_be())
+        )
+    }
+}
+
+/// Shared state of a run.
+pub struct Run {
+    pub ctx: Ctx,
+    seen_g1: HashSet<(u8, Vec<u8>)>,
+    pub shapes: BTreeMap<Vec<u8>, Option<(usize, usize, usize)>>,
+    pub consts: String,
+    pub peaks: BTreeMap<String, (usize, usize)>,
+}
+
+impl Run {
+    /// Run a decoder on untrusted bytes: panic and allocation oracles.
+    /// `key` is the stable identity of the failure class (used for known findings).
+    pub fn guarded<T>(&mut self, what: &str, key: &str, bytes: &[u8], c0: usize, f: impl FnOnce() -> T) -> Option<T> {
+        let (r, peak) = alloc::measure(|| mzkh::catch(f));
+        self.ctx.count(&format!("guarded:{what}"));
+        let e = self.peaks.entry(what.to_string()).or_insert((0, 0));
+        if peak > e.0 {
+            *e = (peak, bytes.len());
+        }
+        let bound = alloc::ALLOC_C * bytes.len() + c0;
+        if peak > bound {
+            self.ctx.oracle_fail(
+                &format!("{key}:alloc"),
+                &format!(
+                    "{what}: peak allocation {peak} bytes for {} input bytes exceeds {} * len + {c0}",
+                    bytes.len(),
+                    alloc::ALLOC_C
+                ),
+                json!({"what": what, "bytes_hex": hex(&bytes[..bytes.len().min(8192)]), "len": bytes.len(), "peak": peak}),
+            );
+        }
+        match r {
+            Ok(v) => Some(v),
+            Err(msg) => {
+                self.ctx.oracle_fail(
+                    &format!("{key}:panic"),
+                    &format!("{what} panicked on untrusted bytes: {msg}"),
+                    json!({"what": what, "bytes_hex": hex(&bytes[..bytes.len().min(8192)]), "len": bytes.len(), "panic": msg}),
+                );
+                None
+            }
+        }
+    }
+
+    /// Point-level case (deduplicated): `g1 <fmt> <hex>`.
+    pub fn g1_case(&mut self, fi: usize, chunk: &[u8], kind: &str) {
+        if !self.seen_g1.insert((fi as u8, chunk.to_vec())) {
+            return;
+        }
+        let (fmt, fs) = FORMATS[fi];
+        let r = self.guarded("g1-read", &format!("g1-read:{fs}"), chunk, 4096, || {
+            let mut rd = chunk;
+            <G1Projective as ProcessedSerdeObject>::read(&mut rd, fmt)
+        });
+        let ans = match r {
+            None => "panic".to_string(),
+            Some(Ok(p)) => format!("ok {}", g1_render(&G1Affine::from(p))),
+            Some(Err(e)) => format!("err {}", io_class(&e)),
+        };
+        let nontrivial = ans.starts_with("ok");
+        self.ctx.case(&format!("g1-{fs}:{kind}"), nontrivial, &format!("g1 {fs} {}", hex(chunk)), &ans);
+    }
+
+    pub fn g2_case(&mut self, fi: usize, chunk: &[u8], kind: &str) {
+        let (fmt, fs) = FORMATS[fi];
+        let r = self.guarded("g2-read", &format!("g2-read:{fs}"), chunk, 4096, || {
+            let mut rd = chunk;
+            <G2Projective as ProcessedSerdeObject>::read(&mut rd, fmt)
+        });
+        let ans = match r {
+            None => "panic".to_string(),
+            Some(Ok(p)) => format!("ok {}", g2_render(&G2Affine::from(p))),
+            Some(Err(e)) => format!("err {}", io_class(&e)),
+        };
+        let nontrivial = ans.starts_with("ok");
+        self.ctx.case(&format!("g2-{fs}:{kind}"), nontrivial, &format!("g2 {fs} {}", hex(chunk)), &ans);
+    }
+
+    /// Constraint-system shape `ZkStdLib::configure` builds for the architecture at the head of
+    /// `bytes` (what `read_from_cs` compares the header with); `None` if the header does not decode.
+    pub fn shape_for(&mut self, bytes: &[u8]) -> Option<(usize, usize, usize)> {
+        let head = bytes[..bytes.len().min(16)].to_vec();
+        if let Some(s) = self.shapes.get(&head) {
+            return *s;
+        }
+        let s = mzkh::catch(|| {
+            let arch = ZkStdLibArch::read(&mut &head[..]).ok()?;
+            Some(objects::shape_of_arch(arch))
+        })
+        .unwrap_or(None);
+        self.shapes.insert(head, s);
+        s
+    }
+}
 
 fn main() {
-    mzkh::quiet_panics();
-    let js = r#"{"instructions":[{"op":{"load":"Native"},"outputs":["x"]},{"op":{"into_bytes":4294967297},"inputs":["x"],"outputs":["b"]},{"op":"publish","inputs":["b"]}]}"#;
-    let rel = ZkirRelation::read(js).unwrap();
-    let mut b = vec![];
-    rel.write_relation(&mut b).unwrap();
-    println!("bincode: {:02x?}", b);
-    let w: HashMap<&'static str, IrValue> = HashMap::from_iter([("x", F::from(5).into())]);
-    let r = mzkh::catch(|| rel.public_inputs(w.clone()).map(|v| v.len()));
-    println!("public_inputs into_bytes(2^32+1): {:?}", r);
-    for js in [
-        r#"{"instructions":[{"op":{"load":{"Bytes":0}},"outputs":["x"]}]}"#,
-        r#"{"instructions":[{"op":{"load":{"BigUint":0}},"outputs":["x"]}]}"#,
-        r#"{"instructions":[{"op":{"load":"Native"},"outputs":["x"]},{"op":{"into_bytes":33},"inputs":["x"],"outputs":["b"]}]}"#,
-        r#"{"instructions":[{"op":{"load":"Native"},"outputs":["x"]},{"op":{"into_bytes":0},"inputs":["x"],"outputs":["b"]}]}"#,
-        r#"{"instructions":[{"op":{"load":"Native"},"outputs":["x","x"]}]}"#,
-        r#"{"instructions":[{"op":{"from_bytes":{"Bytes":3}},"inputs":["0xFFFF"],"outputs":["b"]}]}"#,
-    ] {
-        let r = mzkh::catch(|| ZkirRelation::read(js).map(|rel| {
-            let c = mzkh::catch(|| MidnightCircuit::from_relation(&rel).min_k());
-            format!("compile={:?}", c)
-        }));
-        println!("{js}\n   -> {:?}", r);
-    }
-    // bincode length field
-    for bytes in [
-        vec![0xfdu8, 0,0,0,0,0,0,0,0x10],           // 2^60 instructions
-        vec![0xfd, 0xff,0xff,0xff,0xff,0xff,0xff,0xff,0xff],
-        vec![0xfc, 0,0,0x10,0],           // 2^20 instructions
-        vec![1, 0, 0, 0, 1, 0xfd, 0,0,0,0,0,0,0,0x10], // 1 instr: Load(Bool), inputs len 0, outputs len=1: string len 2^60
-        vec![1, 0, 0, 0, 1, 0xfc, 0,0,0,0x10], // string len 2^28
-    ] {
-        let t = std::time::Instant::now();
-        let r = mzkh::catch(|| ZkirRelation::read_relation(&mut &bytes[..]).map(|_| ()).map_err(|e| e.to_string()));
-        println!("{:02x?} -> {:?} {:?}", bytes, r, t.elapsed());
-    }
+    let ctx = Ctx::from_args("C16");
+    let mut run = Run {
+        ctx,
+        seen_g1: HashSet::new(),
+        shapes: BTreeMap::new(),
+        consts: objects::col_consts(),
+        peaks: BTreeMap::new(),
+    };
+    let objs = objects::Objects::build(&mut run);
+    sweeps::run_points(&mut run, &objs);
+    sweeps::run_arch(&mut run, &objs);
+    sweeps::run_mvk(&mut run, &objs);
+    let peaks = run
+        .peaks
+        .iter()
+        .map(|(k, v)| (k.clone(), json!({"peak_bytes": v.0, "input_len": v.1})))
+        .collect::<serde_json::Map<_, _>>();
+    run.ctx.set_extra("peak_allocation_per_decoder", serde_json::Value::Object(peaks));
+    run.ctx.finish();
 }
